@@ -2,4 +2,4 @@ HOOK_COMMITS = ["812c50e"]
 _PENDING = "not yet claimed: model/theorems/correspondence for this property are still being built (see DESIGN.md §8); no other technique is substituted"
 NOT_APPLICABLE = {"C%02d" % i: _PENDING for i in range(1, 21)}
 # properties whose check is registered (each harness/props/cXX.py carries its own MANIFEST dict)
-CLAIMED = ["C01", "C02", "C04", "C06", "C07", "C08", "C09", "C10", "C11", "C12", "C13", "C14", "C15", "C16", "C17", "C18", "C19", "C20"]
+CLAIMED = ["C01", "C02", "C03", "C04", "C05", "C06", "C07", "C08", "C09", "C10", "C11", "C12", "C13", "C14", "C15", "C16", "C17", "C18", "C19", "C20"]
